@@ -246,11 +246,12 @@ Fixpoint dec_fuel (fuel : nat) (n : N) (acc : str) : str :=
 Definition dec (n : N) : str := dec_fuel (S (N.to_nat (N.log2 n))) n [].
 Definition id_of_k (k : nat) : str := 107 :: dec (N.of_nat k).
 
-(** strconv.ParseUint(s, 10, 32) *)
+(** strconv.ParseUint(s, 10, 32): one or more decimal digits (no sign, no underscore), any
+    number of leading zeros, value below 2^32 (larger values are a range error). *)
 Definition parse_uint32 (s : str) : option N :=
   match s with
   | [] => None
-  | _ => if all_digits s && (N.of_nat (length s) <=? 20) then
+  | _ => if all_digits s then
            let v := dec_val s 0 in if v <? 4294967296 then Some v else None
          else None
   end.
